@@ -83,6 +83,13 @@ func guardedPutKeys(c *Ctx, fn *ssa.Function, nilParams map[int]bool, methods ma
 				}
 				return
 			}
+			// a method value handed on as a transaction body (`db.Update(db, op.run)`): the method is the body
+			if mc, isMC := in.(*ssa.MakeClosure); isMC {
+				if m := boundMethodTarget(mc); m != nil && pkgOf(m) == pkgKeystore {
+					guardedPutKeys(c, m, nil, methods, depth+1, out)
+				}
+				return
+			}
 			cl, ok := in.(*ssa.Call)
 			if !ok {
 				return
@@ -146,7 +153,7 @@ func summariseKeys(c *Ctx, methods map[string]bool) *keySummary {
 		}
 		fns = append(fns, fn)
 		d := map[string]bool{}
-		allInstrs(fn, func(in ssa.Instruction) {
+		allInstrsShallow(fn, func(in ssa.Instruction) {
 			cl, m, ok := bucketInvoke(in)
 			if !ok || !methods[m] {
 				return
@@ -396,7 +403,7 @@ func c02Keys(c *Ctx) {
 		}
 	}
 	// frozen pairs for computed keys: writer function -> reader function
-	dynReader := map[string]string{"<dyn>@putAccountRow": "<dyn>@fetchAccountInfo", "<dyn>@putEncryptedPubKey": "<all>@fetchEncryptedPubKey", "<dyn>@putAccountID": "<all>@fetchAccountID"}
+	dynReader := map[string]string{"<dyn>@putAccountRow": "<dyn>@fetchAccountInfo", "<dyn>@putAccountInfo": "<dyn>@fetchAccountInfo", /* putAccountRow inlined into its only caller */ "<dyn>@putEncryptedPubKey": "<all>@fetchEncryptedPubKey", "<dyn>@putAccountID": "<all>@fetchAccountID"}
 	for _, k := range sortedKeys(func() map[string]bool {
 		m := map[string]bool{}
 		for k := range written {
@@ -960,7 +967,7 @@ func c02PubLive(c *Ctx) {
 		if pkgOf(fn) != pkgKeystore {
 			continue
 		}
-		for _, a := range fieldAccesses(fn) {
+		for _, a := range fieldAccessesShallow(fn) {
 			if !pub[a.Field] || !strings.HasPrefix(a.Type, pkgKeystore+".") {
 				continue
 			}
